@@ -58,6 +58,7 @@ type reqPlan struct {
 	Wait      bool   `json:"wait"` // the client sends this request only after the server asked for more (everything before is answered)
 	Seed      int64  `json:"seed"`
 	RespPool  bool   `json:"resp_pool,omitempty"`  // directresp: response from AcquireResponse, released right after the call
+	RawBody   int    `json:"raw_body,omitempty"`   // directresp: body given with SetBodyRaw(buf); buf is overwritten with marker bytes right after the call (1) or by the late goroutine (2)
 	PreHijack int    `json:"pre_hijack,omitempty"` // gated-late and direct kinds: before the timeout the handler calls ctx.Hijack (1) and HijackSetNoResponse(true) (2)
 }
 
@@ -161,6 +162,9 @@ func genPlan(rnd *rand.Rand, ci int) casePlan {
 			if rnd.Intn(3) == 0 {
 				q.PreHijack = 1 + rnd.Intn(2)
 			}
+			if rnd.Intn(2) == 0 {
+				q.RawBody = 1 + rnd.Intn(2)
+			}
 			if q.Method == "POST" {
 				n := rnd.Intn(200)
 				b := make([]byte, n)
@@ -227,6 +231,7 @@ type reqState struct {
 	gateOpen  bool
 	releaseAt int
 	resp      *fasthttp.Response // directresp: the caller-owned response the late handler keeps mutating
+	rawBuf    []byte             // directresp with SetBodyRaw: the caller-owned buffer the body was given in
 	steps     atomic.Int64
 	started   atomic.Bool
 	latePanic atomic.Value
@@ -455,11 +460,19 @@ func (cs *caseState) handler(ctx *fasthttp.RequestCtx) {
 			st.ctype = "application/x-timeout"
 			st.xhdr = [][2]string{{"X-Timeout-Id", fmt.Sprintf("t%d-%d", cs.plan.Case, st.uid)}}
 			resp.SetStatusCode(st.code)
-			resp.SetBodyString(st.msg)
+			if st.plan.RawBody > 0 {
+				st.rawBuf = []byte(st.msg) // the buffer stays the caller's: the timeout response must hold the bytes as they are now
+				resp.SetBodyRaw(st.rawBuf)
+			} else {
+				resp.SetBodyString(st.msg)
+			}
 			resp.Header.SetContentType(st.ctype)
 			resp.Header.Set(st.xhdr[0][0], st.xhdr[0][1])
 			ctx.TimeoutErrorWithResponse(resp)
-			// the response object still belongs to the caller
+			// the response object and the raw buffer still belong to the caller
+			if st.plan.RawBody == 1 {
+				fillMarker(st.rawBuf, mk)
+			}
 			resp.SetBodyString(mk + "-after")
 			resp.Header.Set("X-Timeout-Id", mk)
 			resp.SetStatusCode(500)
@@ -474,6 +487,13 @@ func (cs *caseState) handler(ctx *fasthttp.RequestCtx) {
 	}
 }
 
+// fillMarker overwrites buf in place with marker bytes (the sentinel first).
+func fillMarker(buf []byte, mk string) {
+	for i := range buf {
+		buf[i] = mk[i%len(mk)]
+	}
+}
+
 // runLate mutates every part of the abandoned ctx, writing markers.
 func runLate(ctx *fasthttp.RequestCtx, st *reqState) {
 	defer func() {
@@ -481,6 +501,9 @@ func runLate(ctx *fasthttp.RequestCtx, st *reqState) {
 			st.latePanic.Store(fmt.Sprintf("%v", v))
 		}
 	}()
+	if st.rawBuf != nil {
+		fillMarker(st.rawBuf, fmt.Sprintf("%s-raw-%d-%d", sentinel, st.ci, st.uid))
+	}
 	rnd := rand.New(rand.NewSource(st.plan.Seed))
 	for i := 0; i < st.plan.Steps; i++ {
 		mk := fmt.Sprintf("%s-%d-%d-%d", sentinel, st.ci, st.uid, i)
@@ -889,7 +912,7 @@ func runCase(plan casePlan, seedRnd *rand.Rand) (cs *caseState, probs []problem,
 func TestC16(t *testing.T) {
 	r := mon.Start(t, "C16")
 	defer r.Finish()
-	r.Rule("case = one Server (Concurrency 1-3/8/default, ReduceMemoryUsage on/off, initialised through Serve or ServeConn-only) serving 1-3 scripted connections (sequential or concurrent, fragmented reads, pipelined and wait-for-response requests GET/HEAD/POST) whose requests are: plain, fast under TimeoutHandler, finishing next to the timer, gated-late under TimeoutHandler/TimeoutWithCodeHandler (1-20 ms), or direct TimeoutError/WithCode/WithResponse with a gated goroutine; in 1/3 of them the handler asks for a hijack (with or without HijackSetNoResponse) before it times out, which must never be honoured; late handlers run 1-40 PRNG-chosen mutations of the abandoned ctx (38 kinds) writing markers, released at a PRNG-chosen logical event (at once … end of case); distinct = (concurrency class, options, set of kinds, methods of timed-out requests, release classes, outcomes); non-trivial = at least one request observed timed out whose late handler executed mutations")
+	r.Rule("case = one Server (Concurrency 1-3/8/default, ReduceMemoryUsage on/off, initialised through Serve or ServeConn-only) serving 1-3 scripted connections (sequential or concurrent, fragmented reads, pipelined and wait-for-response requests GET/HEAD/POST) whose requests are: plain, fast under TimeoutHandler, finishing next to the timer, gated-late under TimeoutHandler/TimeoutWithCodeHandler (1-20 ms), or direct TimeoutError/WithCode/WithResponse (response body set with SetBodyString or with SetBodyRaw on a caller-owned buffer that is overwritten with markers after the call) with a gated goroutine; in 1/3 of them the handler asks for a hijack (with or without HijackSetNoResponse) before it times out, which must never be honoured; late handlers run 1-40 PRNG-chosen mutations of the abandoned ctx (38 kinds) writing markers, released at a PRNG-chosen logical event (at once … end of case); distinct = (concurrency class, options, set of kinds, methods of timed-out requests, release classes, outcomes); non-trivial = at least one request observed timed out whose late handler executed mutations")
 	r.Assume("h1 reference parser decides response framing; ctx.LastTimeoutErrorResponse()!=nil read on the serving goroutine right after the wrapper returned is the observation 'the timeout fired'")
 	r.Assume("a 429 is judged only when decidable without timing: required when gated late handlers hold all slots, forbidden when no more than Concurrency wrapped calls were ever started; everything else (slot released a moment after the handler returned) is counted as skipped_429_undecided")
 	r.Assume("not judged: HTTP/1.0 keep-alive header on timeout responses, Content-Length value of HEAD responses, late handlers that call TimeoutError* again or write to ctx.Conn() directly (caller misuse)")
@@ -922,6 +945,10 @@ func TestC16(t *testing.T) {
 					seenTO = true
 					tom[st.plan.Method] = true
 					steps += int(st.steps.Load())
+					if st.rawBuf != nil {
+						r.Event("timeouts_with_raw_body_overwritten", 1)
+						rel[fmt.Sprintf("raw%d", st.plan.RawBody)] = true
+					}
 					if st.plan.PreHijack > 0 && st.plan.Kind != "wedge" && st.plan.Kind != "wfast" {
 						r.Event("timeouts_after_hijack_request", 1)
 						rel[fmt.Sprintf("hijack%d", st.plan.PreHijack)] = true
@@ -986,6 +1013,7 @@ func TestC16(t *testing.T) {
 	r.Require("responses_checked", n)
 	r.Require("followups_after_timeout_served", n/20)
 	r.Require("timeouts_after_hijack_request", n/10)
+	r.Require("timeouts_with_raw_body_overwritten", n/20)
 }
 
 func keys(m map[string]bool) []string {
